@@ -22,6 +22,10 @@ RULE = (
     "full dotted path; after DocumentSyncConflict every conflicting destination document equals its pre-sync "
     "content and no backup file remains. Non-trivial and distinct = distinct cases with at least one file or key conflict."
 )
+RULE += (
+    " " + 'Added later: every call that raised DocumentSyncConflict is repeated as a dry run on a rebuilt destination; sub-second mtime differences within one second.'
+    " In every third case DEBUG logging is effective for the package."
+)
 ASSUMPTIONS = [
     "For files with different content but equal size and mtime under the default shallow comparison only the safe "
     "direction is asserted (never overwritten without a true verdict).",
